@@ -1,8 +1,9 @@
 /-
   C09 — ending a process notifies waiters once, frees holdings, silences its events
-  Property theorems only (the process-layer model is CimbaModel/Sim; helper lemmas in CimbaModel/Sim/*).
+  Property theorems only (the process-layer model is CimbaModel/Sim; helper lemmas in CimbaModel/Sim/S1*.lean).
 -/
 import CimbaModel.Sim.Basic
+import CimbaModel.Sim.S1Demo
 import CimbaModel.HashHeap.Orders
 
 namespace CimbaModel.Props.C09
@@ -13,5 +14,162 @@ open CimbaModel.HashHeap (HTag Item Order HH)
     end (SUCCESS) from a stop (STOPPED), and both from an interrupt, a timeout, a cancellation and a preemption -/
 theorem notification_codes_distinct :
     [sigSuccess, sigPreempted, sigInterrupted, sigStopped, sigCancelled, sigTimeout].Nodup := by decide
+
+/-! ### the three ways a process ends are one function -/
+
+/-- `exit v`, `stop` of oneself, `stop` of another running process and running off the end of the script all go through
+    `finishProc` (with `stopped = false` for return / exit, `true` for a stop) -/
+theorem ends_are_finishProc (w : World) (p q : Pid) (v : Int) :
+    execCmd w p (.exit v) = (finishProc w p v false, .ended) ∧
+    execCmd w p (.stop p v) = (finishProc w p v true, .ended) ∧
+    (q ≠ p → isRunning w q = true → execCmd w p (.stop q v) = (finishProc w q v true, .ret 0 "")) ∧
+    (q ≠ p → isRunning w q = false → execCmd w p (.stop q v) = (w, .ret 0 "")) := by
+  refine ⟨by simp only [execCmd], by simp only [execCmd, if_true], ?_, ?_⟩
+  · intro hq hr; simp only [execCmd, hq, if_false, hr, if_true]
+  · intro hq hr; simp [execCmd, hq, hr]
+
+/-- running off the end of the script is `exit 0` -/
+theorem return_is_exit_zero (fuel : Nat) (w : World) (p : Pid) (hend : (w.proc p).script[(w.proc p).pc]? = none) :
+    runScript (fuel + 1) w p = finishProc (w.emit s!"e {p} {w.now} 0") p 0 false := by
+  simp only [runScript, hend]
+
+/-! ### what the end leaves behind -/
+
+/-- **the record after the end**: nothing held, nothing awaited, nobody registered as waiting, status finished, not
+    suspended, and the exit value is what it returned / exited with / was stopped with -/
+theorem end_record (w : World) (p : Pid) (hp : p < w.procs.size) (val : Int) (stopped : Bool) :
+    ((finishProc w p val stopped).proc p).held = [] ∧
+    ((finishProc w p val stopped).proc p).awaits = [] ∧
+    ((finishProc w p val stopped).proc p).waiters = [] ∧
+    ((finishProc w p val stopped).proc p).status = .finished ∧
+    ((finishProc w p val stopped).proc p).exitVal = val ∧
+    ((finishProc w p val stopped).proc p).blocked = none :=
+  finishProc_record w p hp val stopped
+
+/-- **everything it held is released**: each resource it listed has no holder afterwards, nothing else changes hands
+    (pools: see C07; the release loop and its signals: `C05.end_signals_each_guard`) -/
+theorem end_releases (w : World) (p : Pid) (val : Int) (stopped : Bool) (r : Nat) :
+    (HoldRef.res r ∈ (w.proc p).held → (finishProc w p val stopped).holder r = none) ∧
+    (HoldRef.res r ∉ (w.proc p).held → (finishProc w p val stopped).holder r = w.holder r) :=
+  ⟨finishProc_frees w p val stopped r, finishProc_keeps w p val stopped r⟩
+
+/-! ### every waiter is resumed exactly once, at that instant, with the right code -/
+
+/-- **`wake_process_waiters`**: the pending set after the call is the pending set before it plus exactly one event per
+    entry of the waiter list, carrying the waiter as subject, the process wake-up action, the given signal, the
+    current time and the waiter's priority, with fresh consecutive handles; nothing is removed -/
+theorem end_notifies_each_waiter (w : World) (p : Pid) (sig : Int) :
+    (wakeWaiters w p sig).ev.pending =
+      (wakeTags aProc sig w.now (fun q => (w.proc q).prio) w.ev.counter (w.proc p).waiters).reverse ++ w.ev.pending ∧
+    (wakeTags aProc sig w.now (fun q => (w.proc q).prio) w.ev.counter (w.proc p).waiters).map (·.item.b)
+      = (w.proc p).waiters.map (· + 1) ∧
+    (∀ e ∈ wakeTags aProc sig w.now (fun q => (w.proc q).prio) w.ev.counter (w.proc p).waiters,
+      e.item.a = aProc ∧ e.item.c = encSig sig ∧ e.d = w.now ∧ w.ev.counter < e.key ∧
+        ∃ q ∈ (w.proc p).waiters, e.item.b = q + 1 ∧ e.i = (w.proc q).prio) ∧
+    ((wakeWaiters w p sig).proc p).waiters = [] := by
+  refine ⟨wakeWaiters_pending w p sig, wakeTags_subjects _ _ _ _ _ _, ?_, ?_⟩
+  · intro e he
+    obtain ⟨a, b, c, d, _, q, hq, f⟩ := mem_wakeTags he
+    exact ⟨a, b, c, d, q, hq, f⟩
+  · rw [wakeWaiters_waiters]; simp
+
+/-- exactly once: with a duplicate-free waiter list, the number of new wake-ups addressed to a process is 1 if it was
+    registered and 0 otherwise -/
+theorem end_notifies_once (w : World) (p : Pid) (sig : Int) (hnd : (w.proc p).waiters.Nodup) (q : Pid) :
+    ((wakeTags aProc sig w.now (fun q => (w.proc q).prio) w.ev.counter (w.proc p).waiters).filter
+        fun e => e.item.b = q + 1).length = if q ∈ (w.proc p).waiters then 1 else 0 := by
+  have h1 : ∀ (l : List HTag), (l.filter fun e => e.item.b = q + 1).length = (l.map (·.item.b)).count (q + 1) := by
+    intro l
+    induction l with
+    | nil => rfl
+    | cons a l ih =>
+      simp only [List.filter_cons, List.map_cons, List.count_cons]
+      by_cases e : a.item.b = q + 1
+      · simp [e, ih]
+      · simp [e, ih]
+  rw [h1, wakeTags_subjects]
+  rw [count_map_succ]
+  split
+  · rename_i hm; exact count_eq_one_of_nodup_mem _ _ hnd hm
+  · rename_i hm; exact List.count_eq_zero.2 hm
+
+/-- the code is SUCCESS for a normal end and STOPPED for a stop -/
+theorem end_code (w : World) (p : Pid) (val : Int) (stopped : Bool) :
+    finishProc w p val stopped =
+      (wakeWaiters (finishMid w p stopped) p (if stopped then sigStopped else sigSuccess)).modProc p
+        fun x => { x with status := .finished, exitVal := val, blocked := none } :=
+  finishProc_eq w p val stopped
+
+/-! ### a finished process stays silent in its own record, and never executes unless restarted -/
+
+/-- **I_dead, record part.**  The record of every finished process is clean: nothing held, nothing awaited, nobody
+    registered as waiting for it, not suspended. -/
+theorem deadRec_iff (w : World) :
+    DeadRec w ↔ ∀ p, (w.proc p).status = .finished →
+      (w.proc p).held = [] ∧ (w.proc p).awaits = [] ∧ (w.proc p).waiters = [] ∧ (w.proc p).blocked = none :=
+  Iff.rfl
+
+/-- it holds in every world without finished processes -/
+theorem deadRec_init (w : World) (h : ∀ p, (w.proc p).status ≠ .finished) : DeadRec w :=
+  fun p hp => absurd hp (h p)
+
+/-- every command executed by a running process keeps it -/
+theorem deadRec_execCmd {w : World} (h : DeadRec w) (p : Pid) (hrun : (w.proc p).status = .running) (c : Cmd) :
+    DeadRec (execCmd w p c).1 := dr_execCmd h p hrun c
+
+/-- the end of any process establishes it for that process and keeps it for the others -/
+theorem deadRec_finishProc {w : World} (h : DeadRec w) (p : Pid) (val : Int) (stopped : Bool) :
+    DeadRec (finishProc w p val stopped) := dr_finishProc h p val stopped
+
+/-- **every dispatched event keeps it**, whatever the woken process then executes -/
+theorem deadRec_dispatch {w w' : World} (h : DeadRec w) (hd : dispatch w = some w') : DeadRec w' := dr_dispatch h hd
+
+/-- it holds at every instant of every run -/
+theorem deadRec_runAll {w : World} (h : DeadRec w) (fuel : Nat) : DeadRec (runAll fuel w) := dr_runAll fuel h
+
+/-- a command that does not end its caller leaves it running: a process stops executing only by ending -/
+theorem runs_until_it_ends (w : World) (p : Pid) (hrun : (w.proc p).status = .running) (c : Cmd)
+    (hne : ∀ w', execCmd w p c ≠ (w', .ended)) : ((execCmd w p c).1.proc p).status = .running :=
+  execCmd_running w p hrun c hne
+
+/-- **a finished process never executes**: resuming a process that is not running does nothing but record a fault (the
+    wake-up actions for process ends, events, grants and condition signals additionally test `isRunning` first) -/
+theorem finished_never_resumes (w : World) (p : Pid) (sig : Int) (h : (w.proc p).status = .finished) :
+    resumeProc w p sig = w.fail s!"resume of a process that is not running: {p}" :=
+  resumeProc_not_running w p sig (by rw [h]; decide)
+
+/-! ### restart -/
+
+/-- **`restart_clean`**: the dispatch of a start event for a process that is not running makes it running at the start
+    of its function (pc 0), not suspended; and for a process that had finished, under `DeadRec`, with nothing awaited,
+    nothing held and nobody registered as waiting -/
+theorem restart_clean {w : World} (h : DeadRec w) (t : HTag) (ev' : EvQ)
+    (hex : executeNext w.ev = some (t, ev')) (ha : t.item.a = aStart)
+    (hp : t.item.b - 1 < w.procs.size) (hfin : (w.proc (t.item.b - 1)).status = .finished) :
+    dispatch w = some (runScript ((w.proc (t.item.b - 1)).script.size + 2) (startWorld w t ev') (t.item.b - 1)) ∧
+    ((startWorld w t ev').proc (t.item.b - 1)).status = .running ∧
+    ((startWorld w t ev').proc (t.item.b - 1)).pc = 0 ∧
+    ((startWorld w t ev').proc (t.item.b - 1)).blocked = none ∧
+    ((startWorld w t ev').proc (t.item.b - 1)).awaits = [] ∧
+    ((startWorld w t ev').proc (t.item.b - 1)).held = [] ∧
+    ((startWorld w t ev').proc (t.item.b - 1)).waiters = [] :=
+  ⟨dispatch_start w t ev' hex ha (by rw [hfin]; decide), Sim.restart_clean h t ev' hp hfin⟩
+
+/-! ### non-vacuity -/
+
+/-- process 2 waits for process 0, which holds the resource and is stopped with value 7: exactly one wake-up, for
+    process 2 (subject 3), with the STOPPED code; the resource is free; the record is clean; the exit value is 7 -/
+example : (demoWaiting.proc 0).waiters = [2] ∧ (demoWaiting.proc 0).held = [.res 0] := by decide
+example : ((finishProc demoWaiting 0 7 true).ev.pending.map fun e => (e.item.a, e.item.b, e.item.c))
+    = [(aProc, 3, encSig sigStopped)] := by decide
+example : (finishProc demoWaiting 0 7 true).holder 0 = none ∧
+    ((finishProc demoWaiting 0 7 true).proc 0).exitVal = 7 ∧
+    ((finishProc demoWaiting 0 7 true).proc 0).status = .finished := by decide
+example : DeadRec demoWorld := deadRec_init _ (fun p => by
+  match p with
+  | 0 => decide
+  | 1 => decide
+  | 2 => decide
+  | n + 3 => simp [demoWorld, World.proc])
 
 end CimbaModel.Props.C09
